@@ -7,7 +7,6 @@ import sys
 import warnings
 from collections import abc
 from dataclasses import MISSING, Field
-from dataclasses import astuple as _get_arguments
 from dataclasses import dataclass as _create_dataclass
 from dataclasses import field as _create_field
 from dataclasses import fields as _get_fields
@@ -278,6 +277,15 @@ def _implement_new_method(cls: type[ExprClass]) -> type[ExprClass]:
         cls._eval_subs = _eval_subs_method  # type: ignore[method-assign]
         cls._xreplace = _xreplace_method  # type: ignore[method-assign]
     return cls
+
+
+def _get_arguments(instance) -> tuple:
+    """Get the values of the dataclass fields of an expression class instance.
+
+    No :func:`dataclasses.astuple`, because that converts field values that are
+    themselves instances of a dataclass-like expression class into a `tuple`.
+    """
+    return tuple(getattr(instance, field.name) for field in _get_fields(instance))
 
 
 def _update_field_metadata(cls: T) -> T:
